@@ -31,11 +31,11 @@ claimed["C09"] = dict(engine="cesium-conc", cat="exploration", ref="DESIGN.md ยง
    note="Deterministic tier pinned to GOMAXPROCS=1 (self-test: 30 processes x 398 cases, 0 divergences at GOMAXPROCS=1; goroutine ids are not creation-ordered with more Ps). The -race tier does not replay exactly. Concurrent reads are executed and their linearizability is reported as an informational probe only, because the statement constrains the content readable afterwards.",
    tech=TECH+": seeded goroutine-level scheduler over overlay-instrumented sync/atomic/channel/FS points, porcupine on recorded histories, deadlock detection by quiescence, race detector tier")
 claimed["C05"] = dict(engine="cesium-control", cat="exploration", ref="DESIGN.md ยง5 C05",
-   text="(a) seeded histories of open(subject, authority, time range, ErrIfControlled/ErrOnUnauthorizedOpen) / set-authority / release on exclusive and shared controllers with the gate set's iteration order permuted per case: after every step the returned transfer, every open gate's Authorize outcome and LeadingState equal the ordered-gate model; (c) the same calls from 2-3 goroutines under the seeded scheduler, recorded history checked with porcupine against the same sequential model; (b) the write path (only authorized writes persisted and relayed) is checked through real cesium writers by C20's engine.",
+   text="(a) seeded histories of open(subject, authority, time range, ErrIfControlled/ErrOnUnauthorizedOpen) / set-authority / release on exclusive and shared controllers with the gate set's iteration order permuted per case: after every step the returned transfer, every open gate's Authorize outcome and LeadingState equal the ordered-gate model; (c) the same calls from 2-3 goroutines under the seeded scheduler, recorded history checked with porcupine against the same sequential model; (b) the write path through real cesium writers (cesium-stream unit, C20's engine, run by this check as well): only writes reported authorized are persisted and relayed; writers that lose control to a higher-authority interloper mid-stream and regain it; writers with auto-commit off whose final commit must not extend beyond their last authorized sample; a probe write right after the last authorized sample must succeed; virtual channels (shared control) with opens, closes and authority changes mid-stream checked against the highest-authority model.",
    note="In-package harness on cesium/internal/control. SetAuthority on a released gate, a gate bridging two regions and the error kind of a duplicate subject are outside the statement. Known finding shared with C20: per-channel handoff lets a write reported unauthorized take effect on part of its channels.",
    tech=TECH+": seeded op-tier histories with map-order exploration against an ordered-gate model; goroutine-tier schedules with porcupine linearizability")
 claimed["C20"] = dict(engine="cesium-stream", cat="exploration", ref="DESIGN.md ยง5 C20",
-   text="Writers (contending pairs with drawn authorities; persist+stream / stream-only / persist-only), streamer consumers (always-ready or sleeping in virtual time) and streamer controllers (re-subscribe, disconnect), optionally a database close, run as goroutines of one real database under the seeded scheduler with the relay's slow-consumer timer on the virtual clock. Oracles over the recorded history: per streamer and writer the received frames are a subsequence of the write log (no duplicate, no reorder, no mixing), every received key was subscribed no later than the receipt, nothing from unauthorized or persist-only writes is relayed, stable always-ready streamers receive every frame, the persisted content equals the writes reported authorized, no deadlock/stall and bounded virtual idle time.",
+   text="Writers (contending pairs with drawn authorities; persist+stream / stream-only / persist-only), streamer consumers (always-ready or sleeping in virtual time) and streamer controllers (re-subscribe, disconnect), optionally a database close, run as goroutines of one real database under the seeded scheduler with the relay's slow-consumer timer on the virtual clock. Paced writers, writers on virtual channels whose control relation changes mid-run, higher-authority interlopers and writers with auto-commit off are part of the cases. Oracles over the recorded history: a write that began after a re-subscription was certainly in force is filtered by that subscription or a later one; per streamer and writer the received frames are a subsequence of the write log (no duplicate, no reorder, no mixing), every received key was subscribed no later than the receipt, nothing from unauthorized or persist-only writes is relayed, stable always-ready streamers receive every frame, the persisted content equals the writes reported authorized, no deadlock/stall and bounded virtual idle time.",
    note="Streamers are connected before the writers start and the relay is given virtual time to flush before they are disconnected. Completeness is asserted only without stall quanta and without a concurrent database close. After a database close streamers are abandoned, not waited for (disconnecting after the relay has shut down blocks for ever: observation recorded in DESIGN.md).",
    tech=TECH+": goroutine-tier schedules over instrumented channel/lock/atomic points with virtual-time slow-consumer timers; history oracles (subsequence, filter, completeness, bounded liveness)")
 claimed["C06"] = dict(engine="aspen-kvcore", cat="exploration", ref="DESIGN.md ยง5 C06",
@@ -46,6 +46,10 @@ claimed["C13"] = dict(engine="aspen-kvcore", cat="exploration", ref="DESIGN.md ย
    text="Same two engines as C06 with observer oracles: (a) kvcore: the ingress segment's accepted output (the only thing routed to the persist splitter and on to observers) carries each (key, version, leaseholder) at most once per node under any redelivery/duplication order, never an operation that lost to a stored newer one, and every operation that changed the stored state; (b) cluster: on every node an unfiltered and a host-leaseholder-filtered subscriber record notifications while gossip, recovery, duplication, loss and restarts run: no write is notified twice, never an older write after a newer one of the same key, the filtered stream is a subsequence of the unfiltered one.",
    note="Cluster-level notifications are identified by their unique written value (the observable exposes no version). Completeness is asserted in the kvcore engine only (subscriber keeps up by construction).",
    tech=TECH+": seeded delivery orders/duplication into the real ingress pipeline plus whole-node simulation with network faults; per-subscriber history oracles")
+claimed["C12"] = dict(engine="aspen-gossip", cat="exploration", ref="DESIGN.md ยง5 C12",
+   text="The real sync/ack/ack2 membership gossip over the real cluster store of 2-4 nodes (optionally plus a member that is not a running node, with a zero or non-zero heartbeat) wired through the in-memory unary network. (a) c12-seq: seeded sequences of exchange(i,j), tick(i), host state change(i), GossipOnce(i) with the production peer choice, exchanges that lose ack2, and restart(i) from the persisted copy with a generation bump, from complete, disjoint, chain or random initial views; after every operation: no heartbeat of any member regresses in any view, no record changes without a heartbeat advance, every held record is one the member published, bystanders unchanged, no member forgotten; finally every unordered pair exchanges once (seeded order and direction) and all views must be identical and complete. (b) c12-conc: the same operations issued by one task per node under the seeded scheduler (handlers run in the initiator's goroutine), monotonicity sampled after every task step, then the same final phase.",
+   note="In-package harness on aspen/internal/cluster/gossip. A restarted node may forget what it learnt about other members since its last flush (baseline reset); its own record must supersede through the generation. Two genuine defects found and repaired (zero-heartbeat member not returned in ack2; unsynchronised copy-modify-set in the cluster store).",
+   tech=TECH+": seeded op-tier exchange sequences against per-view monotonicity/provenance invariants and a one-exchange-per-pair convergence check; goroutine-tier schedules of concurrent exchanges")
 not_applicable = {
  "C19": "Pure function of (source, arguments): the Arc compiler/analyzer/wazero call path has no goroutines, timers, I/O, transport or storage for a scheduler, clock or fault injector to act on; generating programs would be input generation in simulator costume (DESIGN.md ยง1).",
 }
@@ -88,6 +92,7 @@ m = {
   {"name": "cesium-stream", "path": "/verif/harness/cesium/zz_verif_c20_test.go", "serves_properties": ["C20", "C05"], "kind_free_text": "goroutine-tier simulation of writers, relay and streamers"},
   {"name": "aspen-kvcore", "path": "/verif/harness/aspen/internal/kv", "serves_properties": ["C06", "C13"], "kind_free_text": "in-package seeded delivery orders into the real kv ingress pipeline"},
   {"name": "aspen-cluster", "path": "/verif/harness/aspen/zz_verif_cluster_test.go", "serves_properties": ["C06", "C13"], "kind_free_text": "whole aspen nodes under the seeded scheduler over the in-memory transport with fault-injecting wrapper"},
+  {"name": "aspen-gossip", "path": "/verif/harness/aspen/internal/cluster/gossip", "serves_properties": ["C12"], "kind_free_text": "in-package op-tier + goroutine-tier simulation of membership gossip over the real cluster store"},
   {"name": "cesium-crash", "path": "/verif/harness/cesium/zz_verif_c02_test.go", "serves_properties": ["C02"], "kind_free_text": "crash-point enumeration over the simulated disk's mutation log"},
  ],
  "checks": checks,
